@@ -11,6 +11,7 @@ const (
 	kfRelID    = "KF-C10-relid-collision"
 	kfSkipBody = "KF-C10-placeholder-skip-body"
 	kfSkipCell = "KF-C10-placeholder-skip-cell"
+	kfResize   = "KF-C10-resize-noop"
 )
 
 // opOf extracts the step index a failure detail starts with ("op N (...)").
@@ -23,6 +24,25 @@ func opOf(f kit.Failure) int {
 }
 
 var findings = []kit.Finding[Case]{
+	{
+		ID:     kfResize,
+		Clause: "C10.K3.rule",
+		Desc: "ResizeImage only stores the new ImageSize in ImageInfo.Config: the drawing the addition already put into the document keeps its wp:extent / a:ext, " +
+			"the saved picture is shown at the size it had before the call",
+		// input class: a ResizeImage call on the handle of a picture of the document; failure: the extent of exactly such a
+		// picture (the detail names the resizing step) does not follow the rule of the new size and still is the extent the addition gave it
+		Trigger: func(c Case, f kit.Failure) bool {
+			i := strings.Index(f.Detail, ", resized by op ")
+			if i < 0 || !strings.HasSuffix(f.Detail, unchangedNote) {
+				return false
+			}
+			var n int
+			if _, err := fmt.Sscanf(f.Detail[i:], ", resized by op %d)", &n); err != nil {
+				return false
+			}
+			return n > 0 && n < len(c.Steps) && c.Steps[n].K == "resize" && opOf(f) > n
+		},
+	},
 	{
 		ID:     kfRelID,
 		Clause: "C10.K1.relid",
